@@ -21,7 +21,27 @@ def guards(f, P, target_block):
             for pol, edge_t in ((True, tt), (False, ft)):
                 if not cfg.reaches(f, f.entry.name, target_block, removed_edges=[(b.name, edge_t)]):
                     out.append((b, P.expr(t.ops[0]), pol))
-    return out
+    # short-circuit lowering: `a && b` branches on phi [false, lhs], [b, rhs]; taking its true edge implies b
+    # (and `a || b`: phi [true, lhs], [b, rhs]; taking the false edge implies !b)
+    extra = []
+    for b, e, pol in out:
+        c, p2 = peel_cond(e)
+        c = strip_casts(c)
+        if c[0] != 'phi' or c[2].block is not b:
+            continue
+        eff = pol == p2
+        nonconst = []
+        ok = True
+        for v, src in c[2].extra['incoming']:
+            if v[0] == 'int':
+                if bool(v[1]) == eff:
+                    ok = False      # a constant incoming edge already decides the branch our way
+            else:
+                nonconst.append((v, src))
+        if ok and len(nonconst) == 1:
+            v, src = nonconst[0]
+            extra.append((f.blocks[src], P.expr(v), eff))
+    return out + extra
 
 
 def guard_holds(gs, pred):
